@@ -1,4 +1,5 @@
 import Blue.Driver.Util
+import Blue.Driver.C18
 import Blue.Driver.C12
 import Blue.Driver.C19
 import Blue.Driver.C10
@@ -9,6 +10,7 @@ import Blue.Driver.C16
 import Blue.Driver.C11
 import Blue.Driver.C14
 import Blue.Driver.C04
+import Blue.Driver.C02
 import Blue.Driver.C08
 import Blue.Driver.C01
 open Blue.Driver
@@ -18,6 +20,7 @@ def dispatch (toks : List String) : String :=
   | "setsum" :: rest => Blue.Driver.C14.handle rest
   | "kvs" :: rest => Blue.Driver.C01.handle rest
   | "ledger" :: rest => Blue.Driver.C04.handle rest
+  | "crash" :: rest => Blue.Driver.C02.handle rest
   | "refs" :: rest => Blue.Driver.C08.handle rest
   | "cur" :: rest => Blue.Driver.C11.handle rest
   | "tk1" :: rest => Blue.Driver.C16.K1.handle rest
@@ -32,6 +35,7 @@ def dispatch (toks : List String) : String :=
   | "bv" :: rest => Blue.Driver.C19.handleBv rest
   | "doc" :: rest => Blue.Driver.C19.handleDoc rest
   | "log" :: rest => Blue.Driver.C12.handle rest
+  | "lru" :: _ | "wl" :: _ | "wcq" :: _ | "wake" :: _ => Blue.Driver.C18.handle toks
   | _ => "bad-op"
 
 partial def loop (h : IO.FS.Stream) (out : IO.FS.Stream) : IO Unit := do
